@@ -153,6 +153,10 @@ def build(v, hint=None):
             return StubSchema(v.get("possible", []))
     if isinstance(v, list):
         return tuple(build(x) for x in v)
+    if isinstance(v, str) and v.startswith("VFunc("):
+        def cb(*a, **k):
+            COUNTERS["errs"] = COUNTERS.get("errs", 0) + 1
+        return cb
     return v
 
 
@@ -252,6 +256,33 @@ def _types_ns():
             return a is b
         return True
 
+    def Valid(v, t):
+        from graphql.pyutils import Undefined, is_iterable
+        from graphql.type import is_input_object_type
+        if is_non_null_type(t):
+            return v is not None and v is not Undefined and Valid(v, of(t))
+        if v is None or v is Undefined:
+            return True
+        if is_list_type(t):
+            if is_iterable(v):
+                return all(Valid(x, of(t)) for x in v)
+            return Valid(v, of(t))
+        if is_input_object_type(t):
+            raise Undecidable("Valid on input objects")
+        try:
+            return t.coerce_input_value(v) is not Undefined
+        except Exception:
+            return False
+
+    def Conf(r, t):
+        if is_non_null_type(t):
+            return r is not None and Conf(r, of(t))
+        if r is None:
+            return True
+        if is_list_type(t):
+            return isinstance(r, list) and all(Conf(x, of(t)) for x in r)
+        return True
+
     kinds = {"NONNULL": is_non_null_type, "LIST": is_list_type, "OBJECT": is_object_type,
              "INTERFACE": is_interface_type, "UNION": is_union_type}
     return {"of": of, "EqT": EqT, "Sub": Sub, "Compat": Compat, "SameShapeW": SameShapeW,
@@ -259,9 +290,22 @@ def _types_ns():
             "ListTy": is_list_type, "NamedTy": is_named_type, "LeafTy": is_leaf_type,
             "possible": lambda s, a, b: s.is_sub_type(a, b),
             "kind_is": lambda t, k: kinds[k](t) if k in kinds else False,
-            "abstract_ty": is_abstract_type,
+            "abstract_ty": is_abstract_type, "Valid": Valid, "Conf": Conf,
+            "NoObj": lambda t: True, "iterable_v": lambda v: __import__("graphql").pyutils.is_iterable(v),
+            "ty_rank": lambda t: 0 if is_named_type(t) else 1 + _rank(t.of_type),
             "is_undefined": lambda v: v is __import__("graphql").pyutils.Undefined,
             "instance_of": lambda v, name: type(v).__name__ == name}
+
+
+def _rank(t):
+    n = 0
+    while hasattr(t, "of_type"):
+        n += 1
+        t = t.of_type
+    return n
+
+
+COUNTERS = {}
 
 
 class _Custom:
@@ -388,9 +432,14 @@ def main():
         w = load_contract_defs()
         ns = dict(vars(mod))
         ns.update(w.ns)
-        old_args = copy.deepcopy(args)
+        try:
+            old_args = copy.deepcopy(args)
+        except Exception:
+            old_args = dict(args)
         ns_old = dict(ns)
         ns_old.update(old_args)
+        ns["ghost"] = lambda name: COUNTERS.get(name, 0)
+        ns_old["ghost"] = lambda name: 0
         result = None
         exc = None
         try:
@@ -407,6 +456,9 @@ def main():
             if exc is not None and type(exc).__name__ == want:
                 out["confirmed"] = True
                 out["why"] = f"the real function raised {want}, which its contract does not allow"
+        elif kind == "VARIANT" and isinstance(exc, RecursionError):
+            out["confirmed"] = True
+            out["why"] = "the real function does not terminate on this input (RecursionError)"
         elif kind == "POST" and exc is None:
             ns2 = dict(ns)
             ns2.update(args)
